@@ -691,9 +691,14 @@ def rule_bonus_args(ctx):
                 ctx.violation(key + "|class", site(fn, bi), verdict[1])
                 continue
             # ---- class of the previous character
-            pex = [prev]
-            if prev[0] == "local":
-                pex = [d for _, _, d in fn.def_exprs(prev[1], at=bi)]
+            def expand_prev(e_, depth=0):
+                if e_[0] == "local" and depth < 4:
+                    out_ = []
+                    for _, _, d_ in fn.def_exprs(e_[1], at=bi if depth == 0 else None):
+                        out_ += expand_prev(d_, depth + 1)
+                    return out_ or [e_]
+                return [e_]
+            pex = expand_prev(prev)
             okp = True
             why = ""
             for e in pex:
